@@ -81,6 +81,16 @@ CHECKS = {
          "Around each generated (step, pipeline env, repository URL, key kind) a family of re-orderings/re-spellings that must give byte-identical payloads and of boundary-shifting / single-point variants that must give different payloads is signed; pairwise assertions plus a batch-wide monitor requiring the partition by payload hash to equal the partition by semantic form (tens of thousands of payloads per run).",
          "Semantic form is the harness's reading of the signed content (numbers by value, canonical plugin source, empty = nil); integers beyond 2^53 and K1 are out of scope as stated in DESIGN.md.",
          "DESIGN.md §2 C14"),
+ "C07": ("exploration",
+         "reference-model monitor: harness merge-rule resolver on generated anchor/alias/merge graphs vs DecodeYAML/Parse; yaml.v3's own decoder as second oracle; pointer-uniqueness monitor; cycle workloads with wall-clock recording",
+         "Random anchor graphs (aliases as values and keys, canonicalising key spellings, merges in every form incl. repeated `<<` and merges through merges, up to 30 shared nodes, expansion up to 10^4 nodes) are rendered by the harness and decoded; the ordered result must equal the harness resolver's tree, agree with yaml.v3's decoder where that applies, and no two expansions may share a map or slice; graphs with back-edges must be rejected iff a value edge closes a cycle (merge-only cycles tolerated, mappings used as keys rejected), without panic, with per-case wall clock recorded; a dead process (stack overflow) is attributed through a journal by the driver. Held on the graphs generated.",
+         "The resolver is written from the YAML merge specification and shares its structure with any correct implementation; yaml.v3's decoder is the independent cross-check on the subset it supports. Duplicate explicit keys and non-mapping merge values are outside the property.",
+         "DESIGN.md §2 C07"),
+ "C13": ("exploration",
+         "hostile-input monitor: seeded mutational generator over a corpus of real pipelines + type-error injection into grammar documents (+ coverage-guided native fuzzing in the thorough tier) feeding panic / time / structure / fallback-reporting / marshallability monitors",
+         "Every input (corpus, 1-4 seeded mutations per input, grammar documents with one node's kind swapped) is parsed under a panic guard with wall clock recorded; for usable results the monitors require non-nil Steps, no nil step, step counts equal to the input's step sequence obtained independently (yaml.Node + harness merge resolver, recursively in groups), unknown steps equal to the input entry verbatim, at least one reported cause per fallback, and successful JSON and YAML marshalling. Held on the inputs generated; the thorough tier adds coverage-guided fuzzing bounded by execution count.",
+         "Inputs above 64 KiB or 2*10^5 expansion nodes are dropped; K3/K5 failures are recognised by failure mode + trigger in the data and counted as known findings.",
+         "DESIGN.md §2 C13"),
 }
 
 NOT_YET = {
